@@ -858,6 +858,15 @@ func (fx *FX) evalCall(env *Env, t *ECall) Val {
 		return Val{T: sCap(arg(0).T), Typ: types.Typ[types.Int]}
 	case "allmem":
 		return Val{T: fx.comp(env.st, "M:bv8", SArr(SInt, SBytes))}
+	case "bytes_kept":
+		// every byte region that existed when the call started has the contents it had then
+		if env.old == nil {
+			env.fail("bytes_kept() outside a postcondition / loop clause with an entry state")
+		}
+		now := fx.comp(env.st, "M:bv8", SArr(SInt, SBytes))
+		was := fx.comp(env.old, "M:bv8", SArr(SInt, SBytes))
+		al := fx.comp(env.old, "$alloc", SInt)
+		return Val{T: T(fmt.Sprintf("(forall ((q_reg Int)) (! (=> (< q_reg %s) (= (select %s q_reg) (select %s q_reg))) :pattern ((select %s q_reg))))", al.S, now.S, was.S, now.S), SBool)}
 	case "has":
 		// has(m, k): key k is present in map m
 		x := arg(0)
